@@ -216,6 +216,39 @@ pub fn window_file(in_buf: usize, big_std_len: usize) -> (Vec<u8>, usize) {
     (src, n)
 }
 
+/// `adlt convert -o` on a normal-form file of `n` messages from `necu` ECUs in round-robin order, `step_ms` apart
+pub fn cli_interleaved_export(dir: &str, necu: usize, n: usize, step_ms: u32) -> Result<(), String> {
+    let mut src: Vec<u8> = vec![];
+    for i in 0..n {
+        let mut m = shape(&Framing::Storage, WTMS | UEH, 4, 0, i as u8, 0);
+        m.storage_ecu = [b'E', b'C', b'U', b'1' + (i % necu) as u8];
+        m.hdr_ecu = m.storage_ecu;
+        let t_ms = i as u32 * step_ms;
+        m.secs = 1_600_000_000 + t_ms / 1000;
+        m.micros = (t_ms % 1000) * 1000;
+        m.timestamp = 10_000 + t_ms * 10;
+        m.payload = payload_bytes(4 + i % 5, i as u8);
+        src.extend_from_slice(&m.to_bytes());
+    }
+    let (fin, fout) = (format!("{dir}/il-{necu}-{n}-{step_ms}.dlt"), format!("{dir}/ilout-{necu}-{n}-{step_ms}.dlt"));
+    std::fs::write(&fin, &src).map_err(|e| e.to_string())?;
+    let _ = std::fs::remove_file(&fout);
+    let out = std::process::Command::new(crate::rem::adlt_bin()).arg("convert").arg("-o").arg(&fout).arg(&fin).output();
+    let written = std::fs::read(&fout).unwrap_or_default();
+    let _ = std::fs::remove_file(&fin);
+    let _ = std::fs::remove_file(&fout);
+    match out {
+        Err(e) => Err(format!("cannot run adlt: {e}")),
+        Ok(o) if !o.status.success() => Err(format!("adlt convert -o exited with {:?}", o.status.code())),
+        Ok(_) if written != src => {
+            let got: Vec<u8> = DltMessageIterator::new(0, &written[..]).map(|m| m.standard_header.mcnt).collect();
+            let first_bad = got.iter().enumerate().find(|(i, c)| **c != *i as u8).map(|(i, _)| i);
+            Err(format!("adlt convert -o of {n} messages from {necu} interleaved ECUs is not identical to its normal-form input: {} messages written, first out-of-place message at position {:?}", got.len(), first_bad))
+        }
+        Ok(_) => Ok(()),
+    }
+}
+
 /// `adlt convert -o` on such a file: the output must be byte-identical
 pub fn cli_window_export(dir: &str, in_buf: usize, big_std_len: usize) -> Result<(), String> {
     let (src, n) = window_file(in_buf, big_std_len);
@@ -341,7 +374,7 @@ impl Prop for C02 {
             assumptions: vec!["storage micros < 10^6 (premise of the property)".into(), "CLI level: adlt convert -o on files with a near-maximum message at the start / inside / at the end (family cli_export); the option product is C14's".into()],
             budget_s: (90, 900),
             workers: 0,
-            required_landmarks: vec!["export_drops_header_field(WEID/WSID)", "serial_source", "max_size", "stream_with_embedded_marker", "file_window", "cli_export", "cli_export_over_existing_output", "cli_export_window"],
+            required_landmarks: vec!["export_drops_header_field(WEID/WSID)", "serial_source", "max_size", "stream_with_embedded_marker", "file_window", "cli_export", "cli_export_over_existing_output", "cli_export_window", "cli_export_interleaved_ecus"],
         }
     }
     fn prepare(&self, _t: Tier) -> Result<(), String> {
@@ -436,6 +469,22 @@ impl Prop for C02 {
                     }
                 }
             }
+            // several ECUs interleaved over more than a minute (lifecycles get confirmed mid-stream, messages of the other
+            // ECUs are queued meanwhile): the export keeps the order
+            for necu in [2usize, 3] {
+                for (n, step_ms) in [(300usize, 500u32), (160, 1000)] {
+                    if ctx.mine() {
+                        let cj = || json!({"family": "cli_export", "interleaved_ecus": necu, "msgs": n, "step_ms": step_ms});
+                        ctx.landmark("cli_export_interleaved_ecus");
+                        if let Err(e) = cli_interleaved_export(&dir, necu, n, step_ms) {
+                            ctx.violation("cli_export", "interleaved_ecus", &cj, e);
+                        }
+                        ctx.transitions(1);
+                        ctx.eval(true);
+                        ctx.sample(cj);
+                    }
+                }
+            }
             // the same through the binary for a file larger than the reader's buffer: a maximum-size message at every
             // buffered-byte count around the low mark
             let (wlo, whi) = if thorough { (65_400usize, 65_700usize) } else { (65_520, 65_570) };
@@ -512,7 +561,11 @@ impl Prop for C02 {
             }
             let dir = crate::rem::scratch_dir();
             let cj = || case.clone();
-            if let Some(ib) = case["window_in_buf"].as_u64() {
+            if let Some(ne) = case["interleaved_ecus"].as_u64() {
+                if let Err(e) = cli_interleaved_export(&dir, ne as usize, case["msgs"].as_u64().unwrap_or(300) as usize, case["step_ms"].as_u64().unwrap_or(500) as u32) {
+                    ctx.violation("cli_export", "interleaved_ecus", &cj, e);
+                }
+            } else if let Some(ib) = case["window_in_buf"].as_u64() {
                 if let Err(e) = cli_window_export(&dir, ib as usize, case["big_std_len"].as_u64().unwrap_or(65535) as usize) {
                     ctx.violation("cli_export", "window", &cj, e);
                 }
